@@ -873,7 +873,7 @@ Example ex_dotted_name_outside :
   let l := [Def (ex_h "a.b" false 1 1) [mkword (s_ "1") QN 1] []] in
   forallb tree_ok l = false
   /\ parse [] (match as_str l [] None 0 None with Ok t => t | _ => [] end)
-     = Ok [Scp (mkhdr (s_ "a") false 0 false 0 0) [Def (mkhdr (s_ "b") false 0 true 1 1) [mkword (s_ "1") QN 1] []] []].
+     = Ok [Scp (mkhdr (s_ "a") false 0 false 1 0) [Def (mkhdr (s_ "b") false 0 true 1 1) [mkword (s_ "1") QN 1] []] []].
 Proof. vm_compute. split; reflexivity. Qed.
 
 (* ====================================================================================== *)
@@ -888,10 +888,10 @@ Definition is_nil {A} (l:list A) : bool := match l with [] => true | _ => false 
 
 (* the chain of prefix scopes that scope.adopt builds around an object *)
 Fixpoint wrapc (first:bool) (m:list str) (x:obj) : obj :=
-  match m with [] => x | c :: r => Scp (mkhdr c false 0 (negb first) 0 0) [wrapc false r x] [] end.
+  match m with [] => x | c :: r => Scp (mkhdr c false 0 (negb first) (opid (ohdr x)) 0) [wrapc false r x] [] end.
 
 Lemma wrapc_snoc : forall m first c x,
-  wrapc first (m ++ [c]) x = wrapc first m (Scp (mkhdr c false 0 (negb (first && is_nil m)) 0 0) [x] []).
+  wrapc first (m ++ [c]) x = wrapc first m (Scp (mkhdr c false 0 (negb (first && is_nil m)) (opid (ohdr x)) 0) [x] []).
 Proof.
   induction m as [|d r IH]; intros first c x.
   - cbn [app wrapc is_nil]. rewrite andb_true_r. reflexivity.
@@ -908,12 +908,12 @@ Proof.
   - cbn [app wrap_dotted wrapc]. unfold leafm. cbn [is_nil]. rewrite andb_true_r. reflexivity.
   - cbn [app]. destruct (r ++ [n]) as [|c2 t] eqn:E; [destruct r; discriminate E|].
     change (wrap_dotted first (d :: c2 :: t) o)
-      with (Scp (mkhdr d false 0 (negb first) 0 0) [wrap_dotted false (c2 :: t) o] []).
-    rewrite <- E, IH. cbn [wrapc]. unfold leafm. cbn [is_nil andb]. rewrite andb_false_r. reflexivity.
+      with (Scp (mkhdr d false 0 (negb first) (opid (ohdr o)) 0) [wrap_dotted false (c2 :: t) o] []).
+    rewrite <- E, IH. cbn [wrapc]. unfold leafm. cbn [is_nil andb]. rewrite andb_false_r. destruct o; reflexivity.
 Qed.
 
 Lemma erase_wrapc : forall m first x, erase_obj (wrapc first m x) = wrapc first m (erase_obj x).
-Proof. induction m as [|d r IH]; intros first x; [reflexivity|]. cbn [wrapc erase_obj map]. rewrite IH. reflexivity. Qed.
+Proof. induction m as [|d r IH]; intros first x; [reflexivity|]. cbn [wrapc erase_obj map]. rewrite IH. destruct x; reflexivity. Qed.
 
 Lemma eqs_true : forall a b, eqs a b = true -> a = b.
 Proof.
@@ -1181,7 +1181,7 @@ Proof.
         as (o' & line1 & nid1 & prev1 & active1 & acc1 & Hfl1 & Her1 & Hc1).
       exists o', line1, nid1, prev1, active1, acc1.
       split; [exact Hfl1|]. split; [|exact Hc1].
-      rewrite Her1, wrapc_snoc. cbn [erase_all map andb]. unfold erase_hdr. rewrite Ht, Hmg, Hdis. reflexivity.
+      rewrite Her1, wrapc_snoc. cbn [erase_all map andb]. unfold erase_hdr. rewrite Ht, Hmg, Hdis. destruct k; reflexivity.
     + (* scope printed with braces *)
       apply andb_prop in Hok as [Hh Hks].
       destruct (leaf_ok_facts m h Hh) as (Hn & _ & _ & _).
